@@ -105,6 +105,13 @@ def check_dir(ctx, res, zdir, cfg, files, feats):
         shutil.rmtree(zdir)
     zdir.mkdir(parents=True)
     G.write_dir(zdir, files)
+    for f in feats:
+        if f.startswith("symlink:"):
+            # a page that is also reachable under a second name (a symbolic link inside the notes directory): two pages with
+            # the same text, each gets its own ZIDs in its own file
+            link, target = f[len("symlink:"):].split("->")
+            (zdir / link).unlink()
+            (zdir / link).symlink_to(zdir / target)
     Z.clear_engine_cache()
     with freeze_time(dt.datetime(*TODAY, 12, 0)):
         rc, _, err = Z.zorg_main(zdir, "db", "create", config=cfg)
@@ -114,6 +121,9 @@ def check_dir(ctx, res, zdir, cfg, files, feats):
         return
     after = {rel: (zdir / rel).read_text() for rel in files}
     idx = index_notes(zdir)
+    # (regular pages are examined before link names, so that damage to a regular file is what gets reported)
+    link_names = {f[len("symlink:"):].split("->")[0] for f in feats if f.startswith("symlink:")}
+    files = {rel: files[rel] for rel in sorted(files, key=lambda r: (r in link_names, r))}
     # (i)+(ii): recompile the rewritten files and compare with the index
     for rel in files:
         comp = ZC.impl_compile(ctx.tmp / "rc", "p.zo", after[rel], TODAY)
@@ -195,6 +205,11 @@ def body(ctx: C.Ctx, proof: C.ProofStatus) -> C.Result:
         files = gen_dir(rng2, feats)
         for f in feats:
             r.count(f)
+        if i % 5 == 2:
+            tgt = sorted(files)[-1]
+            files = {**files, "aaa_link.zo": files[tgt]}
+            feats.add(f"symlink:aaa_link.zo->{tgt}")
+            r.count("symlinked_page")
         # every third notes directory lives below a dot-directory (~/.local/share/notes is an ordinary place for one)
         zd = sub.tmp / ".local" / "share" / "z" if i % 3 == 1 else sub.tmp / "z"
         if i % 3 == 1:
@@ -229,6 +244,9 @@ def classify(f: C.Failure, entry: dict) -> bool:
             return False
         fy, fm, fd, iy, im, idd = map(int, m.groups())
         return (fm, fd) == (im, idd) and fy != iy and (iy - fy) % 100 == 0 and not (2000 <= iy <= 2099) and 2000 <= fy <= 2099
+    if c == "page_symlinked_inside_zdir":
+        links = {x[len("symlink:"):].split("->")[0] for x in case.get("feats", []) if x.startswith("symlink:")}
+        return bool(links) and case.get("page") in links
     if c == "mdate_word_without_zid":
         o = case.get("orig_line") or ""
         return case.get("kind") == "disagree" and case.get("field") == "mdate" and re.match(r"^[-ox~<>] (P\d )?\d{6} ", o) is not None and not re.match(r"^[-ox~<>] (P\d )?\d{6} \d{6}#", o)
@@ -237,7 +255,7 @@ def classify(f: C.Failure, entry: dict) -> bool:
 
 RULE = (
     "directories of 1-5 generated error-free pages (sub-directories, items with and without ZIDs, long create dates, irregular spacing after the "
-    "prefix, look-alike first words, multi-line items, sections) (every third notes directory below a dot-directory) and one bulk page with 140 (thorough: 2650, past the two-character suffixes) ZID-less notes of one date; after `db create`: every note has a ZID in the file, recompiled files == raw index "
+    "prefix, look-alike first words, multi-line items, sections) (every third notes directory below a dot-directory, every fifth with a page that is also reachable through a symbolic link inside the directory) and one bulk page with 140 (thorough: 2650, past the two-character suffixes) ZID-less notes of one date; after `db create`: every note has a ZID in the file, recompiled files == raw index "
     "rows on every compared field, diff confined to ZID insertion after the prefix, second create and reindex change nothing; non-trivial = directory"
 )
 ASSUME = ["file system atomic", "index read back from raw SQLite rows"]
